@@ -1,6 +1,6 @@
 From Coq Require Import Extraction ExtrOcamlBasic.
-From L60870 Require Import Cs104.Server Cs104.SchedRing Cs104.SchedMq Cs104.MsgQueue.
+From L60870 Require Import Cs104.Server Cs104.SchedRing Cs104.SchedMq Cs104.SchedHist Cs104.MsgQueue.
 Extraction "model_queue.ml" MsgQueue.mq_new MsgQueue.mq_enqueue MsgQueue.mq_entries MsgQueue.mq_next MsgQueue.mq_confirm MsgQueue.mq_has_unconfirmed
   MsgQueue.mq_available MsgQueue.mq_reset_waiting MsgQueue.mq_release
   hp_new hp_enqueue hp_next hp_full hp_reset
-  new_conn server_init send_asdu_internal_r send_waiting_r send_waiting_rr release_r.
+  new_conn rstep.
